@@ -4,6 +4,7 @@ Shape: invariant at quiescent points with Python's own attribute resolution as t
 (inspect.getattr_static over the MRO + getattr); no model of param's caches."""
 import inspect
 import json
+import warnings
 
 PROP = 'C13'
 LEVEL = 'exploration'
@@ -122,6 +123,8 @@ def run_case(idx, rng, P, rep):
                     viol('class/param-object-not-governing',
                          f'{step}: {K.__name__}.param[{n!r}] (owner {getattr(got.owner, "__name__", None)}) is not the Parameter that governs '
                          f'{K.__name__}.{n} (owner {getattr(Pobj.owner, "__name__", None)})')
+                if K.param.objects(instance=False).get(n) is not Pobj or K.param.objects('existing').get(n) is not Pobj:
+                    viol('class/objects-view-differs', f'{step}: {K.__name__}.param.objects()[{n!r}] is not the Parameter that governs {K.__name__}.{n}')
                 attr = getattr(K, n)
                 if got.default != attr:
                     viol('class/default-differs', f'{step}: {K.__name__}.param[{n!r}].default={got.default!r} but {K.__name__}.{n}={attr!r}')
@@ -144,7 +147,12 @@ def run_case(idx, rng, P, rep):
             listed = list(o.param)
             r = repr(o)
             ser = json.loads(o.param.serialize_parameters())
+            with warnings.catch_warnings():
+                warnings.simplefilter('ignore')
+                legacy = dict(o.param.get_param_values())       # deprecated spelling of values(), still supported
             for n in gov:
+                if legacy.get(n, '<missing>') != getattr(o, n):
+                    viol('instance/values-differ', f'{step}: inst{ii}.param.get_param_values()[{n!r}]={legacy.get(n, "<missing>")!r} but getattr={getattr(o, n)!r}')
                 rep.count('agreement_checks')
                 attr = getattr(o, n)
                 if n not in listed:
